@@ -46,3 +46,43 @@ package maypanic
 //@   ensures exact: result <==> (exists i int :: 0 <= i && i < len(allowList) && (allowList[i] == path || strings.HasPrefix(path, allowList[i] + "/")))
 //@   loop p invariant none_so_far: forall j int :: 0 <= j && j < iter(p) ==> !(allowList[j] == path || strings.HasPrefix(path, allowList[j] + "/"))
 //@   modifies nothing
+
+// ---------------------------------------------------------------------------
+// C19: a goroutine entry is exempted from the report only for a reason that really
+// is "it defers a function that calls recover()".
+//
+// doesRecover(f) is true exactly when f contains a direct call of the builtin recover.
+//@ macro RI(f, b, i) = f.Blocks[b].Instrs[i]
+//@ spec isRecoverCall(x ssa.Instruction) bool = istype(x, *ssa.Call) && !x.(*ssa.Call).Call.IsInvoke() && istype(x.(*ssa.Call).Call.Value, *ssa.Builtin) && x.(*ssa.Call).Call.Value.(*ssa.Builtin).Name() == "recover"
+//@ func doesRecover
+//@   property C19
+//@   requires f != nil
+//@   requires forall b int :: 0 <= b && b < len(f.Blocks) ==> f.Blocks[b] != nil
+//@   requires forall b int, i int :: 0 <= b && b < len(f.Blocks) && 0 <= i && i < len(f.Blocks[b].Instrs) && RI(f, b, i) != nil ==> ref(RI(f, b, i)) != 0
+//@   ensures sound: result ==> exists b int, i int :: 0 <= b && b < len(f.Blocks) && 0 <= i && i < len(f.Blocks[b].Instrs) && isRecoverCall(RI(f, b, i))
+//@   ensures complete: !result ==> forall b int, i int :: 0 <= b && b < len(f.Blocks) && 0 <= i && i < len(f.Blocks[b].Instrs) ==> !isRecoverCall(RI(f, b, i))
+//@   modifies nothing
+//@   loop b invariant none_b: forall b2 int, i int :: 0 <= b2 && b2 < iter(b) && 0 <= i && i < len(f.Blocks[b2].Instrs) ==> !isRecoverCall(RI(f, b2, i))
+//@   loop instr invariant none_i: (forall b2 int, i int :: 0 <= b2 && b2 < iter(b) && 0 <= i && i < len(f.Blocks[b2].Instrs) ==> !isRecoverCall(RI(f, b2, i))) && (forall i int :: 0 <= i && i < iter(instr) ==> !isRecoverCall(RI(f, iter(b), i)))
+
+// doesDeferRecover(f, R) is true only if f defers a static function, or a closure
+// over a static function, that is in R (the functions that call recover).
+//@ spec defersOneOf(x ssa.Instruction, R map[*ssa.Function]bool) bool = istype(x, *ssa.Defer) && !x.(*ssa.Defer).Call.IsInvoke() && ((istype(x.(*ssa.Defer).Call.Value, *ssa.Function) && has(R, x.(*ssa.Defer).Call.Value.(*ssa.Function))) || (istype(x.(*ssa.Defer).Call.Value, *ssa.MakeClosure) && istype(x.(*ssa.Defer).Call.Value.(*ssa.MakeClosure).Fn, *ssa.Function) && has(R, x.(*ssa.Defer).Call.Value.(*ssa.MakeClosure).Fn.(*ssa.Function))))
+//@ func doesDeferRecover
+//@   property C19
+//@   requires f != nil
+//@   requires forall b int :: 0 <= b && b < len(f.Blocks) ==> f.Blocks[b] != nil
+//@   requires forall b int, i int :: 0 <= b && b < len(f.Blocks) && 0 <= i && i < len(f.Blocks[b].Instrs) && RI(f, b, i) != nil ==> ref(RI(f, b, i)) != 0
+//@   ensures sound: result ==> exists b int, i int :: 0 <= b && b < len(f.Blocks) && 0 <= i && i < len(f.Blocks[b].Instrs) && defersOneOf(RI(f, b, i), recoverFunctions)
+//@   modifies nothing
+
+// Every goroutine entry that does not defer a recovering function is reported.
+//@ func findErroredFunctions
+//@   property C19
+//@   ghost gf *ssa.Function
+//@   requires forall g *ssa.Function :: has(goFunctions, g) ==> g != nil
+//@   requires forall g *ssa.Function, b int :: has(goFunctions, g) && 0 <= b && b < len(g.Blocks) ==> g.Blocks[b] != nil
+//@   requires forall g *ssa.Function, b int, i int :: has(goFunctions, g) && 0 <= b && b < len(g.Blocks) && 0 <= i && i < len(g.Blocks[b].Instrs) && RI(g, b, i) != nil ==> ref(RI(g, b, i)) != 0
+//@   ensures reported: has(goFunctions, gf) && called(doesDeferRecover, gf, recoverFunctions) && !retof(doesDeferRecover, gf, recoverFunctions) ==> has(result, gf) && result[gf]
+//@   ensures all_consulted: has(goFunctions, gf) ==> called(doesDeferRecover, gf, recoverFunctions)
+//@   loop f invariant seen: visited(f, gf) ==> called(doesDeferRecover, gf, recoverFunctions) && (!retof(doesDeferRecover, gf, recoverFunctions) ==> has(result, gf) && result[gf])
